@@ -228,7 +228,7 @@ Section Walk.
     - destruct (kfind k acc); auto. destruct (kqual k); auto.
     - rewrite IH, kv_walk_step_qual. destruct e as [ke ve]. cbn [fst kfind].
       destruct (kqual ke && negb (kmem ke acc)) eqn:E.
-      + rewrite (@kfind_app (option bytes) k acc [(ke, ve)]). destruct (kfind k acc) eqn:Ea; auto. cbn [kfind].
+      + unfold kvmod in *. rewrite kfind_app. destruct (kfind k acc) eqn:Ea; auto. cbn [kfind].
         destruct (beqb k ke) eqn:Ek.
         * apply beqb_eq in Ek; subst. apply andb_true_iff in E. destruct E as [-> _]. auto.
         * auto.
@@ -251,3 +251,119 @@ Section Walk.
       apply NoDup_app_snoc; auto.
   Qed.
 End Walk.
+
+(* ------------------------------------------------------------------------------------------ *)
+(* the database scan, read as a scan over the qualifying rows                                 *)
+(* ------------------------------------------------------------------------------------------ *)
+Fixpoint scan_q (q : list kvrow) (limit maxBytes : N) (acc : list kvrow) (b c : N) : list kvrow * bool :=
+  match q with
+  | [] => (acc, false)
+  | kv :: r =>
+      let ib := kv_size kv in
+      if (0 <? maxBytes) && (maxBytes <? b + ib) && (0 <? c) then (acc, true)
+      else let acc' := acc ++ [kv] in
+           if (0 <? limit) && (limit <=? c + 1) then (acc', negb (is_nil r))
+           else scan_q r limit maxBytes acc' (b + ib) (c + 1)
+  end.
+
+Definition qproj (cursor : bytes) (excl : list kvmod) (incl : bool) (rows : list kvrow) : list kvrow :=
+  map (fun r => (fst r, kv_proj incl (snd r))) (filter (fun r => kv_qualifies cursor excl (fst r)) rows).
+
+Lemma kv_peek_spec : forall rows cursor excl incl,
+  kv_peek rows cursor excl = negb (is_nil (qproj cursor excl incl rows)).
+Proof.
+  induction rows as [|[k v] r IH]; intros; cbn; auto.
+  unfold qproj in *. cbn. destruct (kv_qualifies cursor excl k); cbn; auto.
+Qed.
+
+Lemma kv_scan_q : forall rows cursor limit maxBytes incl excl acc b c,
+  kv_scan rows cursor limit maxBytes incl excl acc b c =
+  scan_q (qproj cursor excl incl rows) limit maxBytes acc b c.
+Proof.
+  induction rows as [|[k v] r IH]; intros; cbn [kv_scan]; [reflexivity|].
+  unfold qproj. cbn [filter fst]. destruct (kv_qualifies cursor excl k) eqn:E; cbn [negb map scan_q fst snd]; cbv zeta.
+  - fold (qproj cursor excl incl r).
+    destruct ((0 <? maxBytes) && (maxBytes <? b + kv_size (k, kv_proj incl v)) && (0 <? c)); auto.
+    destruct ((0 <? limit) && (limit <=? c + 1)).
+    + rewrite (kv_peek_spec r cursor excl incl). auto.
+    + apply IH.
+  - apply IH.
+Qed.
+
+Lemma scan_q_spec : forall limit maxBytes q acc b c,
+  exists taken rest, q = taken ++ rest /\
+    scan_q q limit maxBytes acc b c = (acc ++ taken, negb (is_nil rest)) /\
+    (c = 0 -> q <> [] -> taken <> []).
+Proof.
+  intros limit maxBytes; induction q as [|kv r IH]; intros acc b c; cbn [scan_q].
+  - exists [], []. rewrite app_nil_r. repeat split; auto. intros _ H; contradiction.
+  - destruct ((0 <? maxBytes) && (maxBytes <? b + kv_size kv) && (0 <? c)) eqn:E1.
+    + exists [], (kv :: r). rewrite app_nil_r. repeat split; auto. intros ->. rewrite andb_false_r in E1. discriminate.
+    + destruct ((0 <? limit) && (limit <=? c + 1)) eqn:E2.
+      * exists [kv], r. repeat split; auto. intros _ _. discriminate.
+      * destruct (IH (acc ++ [kv]) (b + kv_size kv) (c + 1)) as [tk [rs [Hq [Hs _]]]].
+        exists (kv :: tk), rs. subst r. rewrite Hs, <- app_assoc. repeat split; auto. intros _ _. discriminate.
+Qed.
+
+(* ------------------------------------------------------------------------------------------ *)
+(* the trim loop                                                                              *)
+(* ------------------------------------------------------------------------------------------ *)
+Fixpoint ktake (l : list kvrow) (i b limit maxBytes : N) : list kvrow :=
+  match l with
+  | [] => []
+  | kv :: r =>
+      let ib := kv_size kv in
+      if (maxBytes <? b + ib) && (0 <? i) then []
+      else if limit <=? i + 1 then [kv]
+      else kv :: ktake r (i + 1) (b + ib) limit maxBytes
+  end.
+
+Lemma trim_at_ktake : forall limit maxBytes l i b,
+  match kv_trim_at l i b limit maxBytes with
+  | Some t => i <= t /\ firstn (N.to_nat (t - i)) l = ktake l i b limit maxBytes
+  | None => ktake l i b limit maxBytes = l
+  end.
+Proof.
+  intros limit maxBytes; induction l as [|kv r IH]; intros i b; cbn [kv_trim_at ktake]; auto.
+  destruct ((maxBytes <? b + kv_size kv) && (0 <? i)).
+  - split; [lia|]. replace (i - i) with 0 by lia. auto.
+  - destruct (limit <=? i + 1).
+    + split; [lia|]. replace (i + 1 - i) with 1 by lia. auto.
+    + specialize (IH (i + 1) (b + kv_size kv)).
+      destruct (kv_trim_at r (i + 1) (b + kv_size kv) limit maxBytes) as [t|].
+      * destruct IH as [Hle Hf]. split; [lia|].
+        replace (N.to_nat (t - i)) with (S (N.to_nat (t - (i + 1)))) by lia. cbn. rewrite Hf. auto.
+      * rewrite IH. auto.
+Qed.
+
+Lemma kv_trim_ktake : forall l limit maxBytes, kv_trim l limit maxBytes = ktake l 0 0 limit maxBytes.
+Proof.
+  intros. unfold kv_trim. pose proof (trim_at_ktake limit maxBytes l 0 0) as H.
+  destruct (kv_trim_at l 0 0 limit maxBytes) as [t|]; [|auto].
+  destruct H as [_ H]. rewrite N.sub_0_r in H. auto.
+Qed.
+
+Lemma ktake_prefix : forall limit maxBytes l1 l2 i b,
+  is_prefix (ktake l1 i b limit maxBytes) (ktake (l1 ++ l2) i b limit maxBytes).
+Proof.
+  intros limit maxBytes; induction l1 as [|kv r IH]; intros l2 i b; cbn [ktake app].
+  - eexists; reflexivity.
+  - destruct ((maxBytes <? b + kv_size kv) && (0 <? i)); [eexists; reflexivity|].
+    destruct (limit <=? i + 1); [eexists; reflexivity|].
+    destruct (IH l2 (i + 1) (b + kv_size kv)) as [x Hx]. exists x. cbn. rewrite Hx. auto.
+Qed.
+
+Lemma ktake_is_prefix : forall limit maxBytes l i b, is_prefix (ktake l i b limit maxBytes) l.
+Proof.
+  intros limit maxBytes; induction l as [|kv r IH]; intros i b; cbn [ktake].
+  - exists []; auto.
+  - destruct ((maxBytes <? b + kv_size kv) && (0 <? i)); [eexists; reflexivity|].
+    destruct (limit <=? i + 1); [exists r; reflexivity|].
+    destruct (IH (i + 1) (b + kv_size kv)) as [x Hx]. exists x. cbn. rewrite <- Hx. auto.
+Qed.
+
+Lemma ktake_nonempty : forall limit maxBytes l b, l <> [] -> ktake l 0 b limit maxBytes <> [].
+Proof.
+  intros limit maxBytes [|kv r] b H; [contradiction|]. cbn [ktake].
+  rewrite andb_false_r. destruct (limit <=? 0 + 1); discriminate.
+Qed.
